@@ -5,6 +5,7 @@ Property theorems only; proofs in TddaVerif/Lemmas/Rexpy*.lean.
 import TddaVerif.Model.Rexpy
 import TddaVerif.Props.C03Spec
 import TddaVerif.Lemmas.RexpySound
+import TddaVerif.Generated.Rexpy
 
 namespace TddaVerif.Props.C03
 open TddaVerif.Py TddaVerif.Rexpy
@@ -46,6 +47,21 @@ theorem extract_sound (T : CharTable) (hT : Consistent T) (o : Opts)
     ∃ ps E w, extract T o items = some (ps, E, w) ∧
       ∀ s ∈ keptExamples o items, ∃ p ∈ ps, Matches T E (wrapWs w p) s :=
   Lemmas.extract_sound T hT o hsz hprune items
+
+/-- **Tie**: the constants the model hard-codes are the ones in the source today
+    (Generated/Rexpy.lean is rewritten from tdda/rexpy/rexpy.py on every run) -/
+theorem tie_constants :
+    Generated.Rexpy.maxGroups = maxGroups ∧ Generated.Rexpy.maxVrleRange = maxVrleRange ∧
+    Generated.Rexpy.nAlignmentLevels = 1 ∧
+    Generated.Rexpy.maxPuncInGroup = ({} : Sizes).maxPuncInGroup ∧
+    Generated.Rexpy.maxStringsInGroup = ({} : Sizes).maxStringsInGroup ∧
+    Generated.Rexpy.coarsestAlnumCode = cUAlpha ∧ Generated.Rexpy.codeAny = cAny ∧
+    Generated.Rexpy.codePunc = cPunc ∧
+    Generated.Rexpy.coarseOrder = [cUAlpha, cWhite, cPunc, cOther] := by decide
+
+/-- **Tie**: the order in which alphanumeric classes are tried, for every set of extra letters -/
+theorem tie_general_alnums :
+    Generated.Rexpy.generalAlnums.all (fun e => generalAlnums e.1 == e.2) = true := by decide
 
 /- non-vacuity -/
 example : Consistent { w := fun c => asciiUpper c || asciiLower c || asciiDigit c || c == '_',
